@@ -87,7 +87,8 @@ IsFastaLike(shape) == \A s \in 1..Len(shape) : \A q \in 1..Len(shape[s]) : shape
 \* are (the haplotype is the part before the first underscore, compared case-insensitively)
 \* "hap3": three haplotypes in turn
 \* "trio": haplotypes named after the parents (Mat / Pat) - haplotype names need not end in a digit
-ScName(s) == IF NameStyle = "hap" THEN (IF s % 2 = 1 THEN "HAP1_SCAFFOLD_" ELSE "hap2_scaffold_") \o ToString(s)
+\* (the second haplotype's names carry a further "_1", as scaffolds of an assembly that was curated before do: hap2_scaffold_2_1)
+ScName(s) == IF NameStyle = "hap" THEN (IF s % 2 = 1 THEN "HAP1_SCAFFOLD_" \o ToString(s) ELSE "hap2_scaffold_" \o ToString(s) \o "_1")
              ELSE IF NameStyle = "trio" THEN (IF s % 2 = 1 THEN "MAT_SCAFFOLD_" ELSE "pat_scaffold_") \o ToString(s)
              ELSE IF NameStyle = "hap3" THEN (IF s % 3 = 1 THEN "HAP1_SCAFFOLD_" ELSE IF s % 3 = 2 THEN "hap2_scaffold_" ELSE "Hap3_Scaffold_") \o ToString(s)
              ELSE "S" \o ToString(s)
